@@ -2,7 +2,7 @@
 //! all 4^8 records of the eight display tags and all macro patterns up to a length.
 
 use super::common::Verdict;
-use crate::engine::{guarded, par_for, Run, Tier};
+use crate::engine::{guarded, par_for, Local, Run, Tier};
 use crate::model::dis_ref::{dis_of, expand_macro};
 use crate::model::v::{from_json, mk_tags, to_json, to_lib, Tags, V};
 use libhaystack::val::{dict_to_dis, dis_macro, Dict, HaystackDict, Value};
@@ -18,6 +18,7 @@ fn localise(k: &str) -> Option<String> {
         "{b" => Some("LCB".into()),
         "key" => Some("translated".into()),
         "x::y" => Some("LXY".into()),
+        "dollar" => Some("$a ${b}".into()),
         _ => None,
     }
 }
@@ -36,6 +37,16 @@ fn scopes() -> Vec<Tags> {
         ]),
         mk_tags(&[("b", V::numu(5.0, "kW")), ("ab", V::Ref("q".into(), None)), ("a1", V::Marker)]),
         vec![],
+        // values whose text contains variables (must not be expanded again), an empty value, other kinds
+        mk_tags(&[
+            ("a", V::str("$b and ${b} $<key>")),
+            ("b", V::str("")),
+            ("ab", V::Date(2021, 2, 28)),
+            ("aB1_", V::List(vec![V::num(1.0), V::str("s")])),
+            ("zz", V::dict(&[("dis", V::str("inner dis"))])),
+            ("a1", V::Bool(false)),
+        ]),
+        mk_tags(&[("a", V::Uri("http://x/$a".into())), ("b", V::Time(1, 2, 3, 0)), ("ab", V::dt(1_625_097_600, 0, "America/New_York")), ("zz", V::Na), ("a1", V::Coord(1.5, -2.0)), ("aB1_", V::Sym("sym".into()))]),
     ]
 }
 
@@ -144,6 +155,49 @@ fn check_record(rec: &Tags) -> Verdict {
     Ok(())
 }
 
+/// one pattern against every scope; a failing pattern is minimised by deleting characters
+fn run_pattern(p: &str, nscopes: usize, local: &mut Local) {
+    for s in 0..nscopes {
+        local.eval();
+        match check_pattern(p, s) {
+            Ok(()) => {}
+            Err(_) => {
+                let mut cur: Vec<char> = p.chars().collect();
+                'outer: loop {
+                    for i in 0..cur.len() {
+                        let mut c = cur.clone();
+                        c.remove(i);
+                        let t: String = c.iter().collect();
+                        if check_pattern(&t, s).is_err() {
+                            cur = c;
+                            continue 'outer;
+                        }
+                    }
+                    break;
+                }
+                let m: String = cur.iter().collect();
+                let (stage, d) = check_pattern(&m, s).err().unwrap();
+                local.fail(&format!("{stage}:{}", pattern_class(&m)), json!({"pattern": m, "scope": s}), d)
+            }
+        }
+    }
+    if p.contains('$') {
+        local.nontrivial(p);
+    }
+    local.count("patterns");
+}
+
+/// every printable ASCII character, line break, tab, and a few non-ASCII ones (2-, 3-, 4-byte, combining)
+fn all_chars() -> Vec<String> {
+    let mut v: Vec<String> = (0x20u8..0x7f).map(|b| (b as char).to_string()).collect();
+    for c in ['\n', '\t', '\r', 'é', 'ß', 'Ω', '€', '😀', '\u{301}', '\u{a0}'] {
+        v.push(c.to_string());
+    }
+    v
+}
+
+const VARS: &[&str] = &["$a", "$ab", "$aB1_", "$b", "$zz", "$a1", "${a}", "${b}", "${zz}", "${aB1_}", "$<key>", "$<x::y>", "$<no>", "$<dollar>", "$", "${", "$<", "$$", "${}", "$<>", "${a", "$<key"];
+
 fn patterns_of_len(len: usize, idx: usize) -> String {
     let mut s = String::new();
     let mut i = idx;
@@ -157,7 +211,7 @@ fn patterns_of_len(len: usize, idx: usize) -> String {
 pub fn run(tier: Tier) -> i32 {
     let mut run = Run::new("C20", tier, "exploration");
     let maxlen = tier.pick(6usize, 7);
-    run.rule = format!("all 4^8 records (each display tag absent / three values of different kinds) with and without default and through Dict::dis(); every macro pattern of length <= {maxlen} over {{$ {{ }} < > a b B 1 _ space é}} against 3 scopes and a localiser; reference = hand-written scanner; non-trivial = pattern containing '$' / record with >= 1 display tag");
+    run.rule = format!("all 4^8 records (each display tag absent / three values of different kinds) with and without default and through Dict::dis(); every macro pattern of length <= {maxlen} over {{$ {{ }} < > a b B 1 _ space é}} against 5 scopes (incl. values whose text contains variables, empty values, nine kinds) and a localiser (one translation contains variables); every one of 22 variable forms between every pair of 106 characters (all printable ASCII, line breaks, 2-/3-/4-byte and combining characters) or none, two variables around every character, all triples of variable forms in three layouts; reference = hand-written scanner; non-trivial = pattern containing '$' / record with >= 1 display tag");
     run.assume("text of a value that is neither Str nor Ref is Value::to_string() (delegated to the library; C20 is about which tag and which substitution)");
     run.assume("macro names are [a-z][A-Za-z0-9_]* taken greedily; $<key> has a non-empty key without '>'");
     crate::engine::quiet_panics();
@@ -190,38 +244,41 @@ pub fn run(tier: Tier) -> i32 {
         let n = ALPHA.len().pow(len as u32);
         for idx in (b * 4096)..((b + 1) * 4096).min(n) {
             let p = patterns_of_len(len, idx);
-            for s in 0..nscopes {
-                local.eval();
-                match check_pattern(&p, s) {
-                    Ok(()) => {}
-                    Err(_) => {
-                        // minimise: delete characters while the pattern still fails
-                        let mut cur: Vec<char> = p.chars().collect();
-                        'outer: loop {
-                            for i in 0..cur.len() {
-                                let mut c = cur.clone();
-                                c.remove(i);
-                                let t: String = c.iter().collect();
-                                if check_pattern(&t, s).is_err() {
-                                    cur = c;
-                                    continue 'outer;
-                                }
-                            }
-                            break;
-                        }
-                        let m: String = cur.iter().collect();
-                        let (stage, d) = check_pattern(&m, s).err().unwrap();
-                        local.fail(&format!("{stage}:{}", pattern_class(&m)), json!({"pattern": m, "scope": s}), d)
-                    }
-                }
-            }
-            if p.contains('$') {
-                local.nontrivial(&p);
-            }
-            local.count("patterns");
+            run_pattern(&p, nscopes, local);
         }
     });
     run.absorb(l);
+    // neighbour sweep: every variable form between every pair of characters (or none); two
+    // variables around every character; three variables; the same variable twice
+    let chars = {
+        let mut c = all_chars();
+        c.push(String::new());
+        c
+    };
+    let nc = chars.len();
+    let l = par_for(VARS.len() * nc, |k, local| {
+        let (vi, ci) = (k / nc, k % nc);
+        for c2 in &chars {
+            run_pattern(&format!("{}{}{}", chars[ci], VARS[vi], c2), nscopes, local);
+            local.count("neighbour-patterns");
+        }
+        for v2 in VARS {
+            run_pattern(&format!("{}{}{}", VARS[vi], chars[ci], v2), nscopes, local);
+            run_pattern(&format!("x{}{}{}{}y", VARS[vi], chars[ci], v2, chars[ci]), nscopes, local);
+        }
+    });
+    run.absorb(l);
+    let nv = VARS.len();
+    let l = par_for(nv * nv, |k, local| {
+        let (i, j) = (k / nv, k % nv);
+        for m in 0..nv {
+            run_pattern(&format!("{} {}/{}", VARS[i], VARS[j], VARS[m]), nscopes, local);
+            run_pattern(&format!("[{}] ({}) {{{}}}", VARS[i], VARS[j], VARS[m]), nscopes, local);
+            run_pattern(&format!("{}{}{}", VARS[i], VARS[j], VARS[m]), nscopes, local);
+        }
+    });
+    run.absorb(l);
+    run.require(run.counter("neighbour-patterns") > 100_000, "neighbour sweep too small");
     for t in TAGS {
         run.require(run.counter(&format!("decisive:{t}")) > 0, &format!("tag {t} never decisive"));
     }
